@@ -83,6 +83,7 @@ class Ctx:
         self.bodies_analysed = set()
         self.call_sites = 0
         self.extra = {}
+        self._helpers = {}
 
     # ---- anchors
     def find_fn(self, name=None, trait=None, self_head=None, path=None, container=None):
@@ -125,6 +126,62 @@ class Ctx:
         if args is None:
             self.cache[ck] = ev
         return ev
+
+    # ---- private helpers located by their role in the call graph (a rename is invisible)
+    def local_callees(self, body):
+        out = []
+
+        def f(n):
+            if n.get('k') == 'Call' and n.get('fn'):
+                fn = n['fn']
+                tgt = fn['did'] if fn.get('local') and fn.get('container') != 'trait' else fn.get('resolved_did') if fn.get('resolved_local') else None
+                if tgt:
+                    cb = self.facts.body(tgt)
+                    if cb is not None and cb not in out:
+                        out.append(cb)
+
+        def visit(b):
+            walk(b.get('thir'), f)
+            for c in self.facts.children.get(b['did'], []):
+                if c['def_kind'] == 'Closure':
+                    visit(c)
+        visit(body)
+        return out
+
+    def helper(self, role):
+        """body of a private helper, by role; None if it cannot be located uniquely"""
+        if role in self._helpers:
+            return self._helpers[role]
+        r = None
+        f = self.find_fn
+        def uniq(xs):
+            return xs[0] if len(xs) == 1 else None
+        if role == 'nuts.init_chain':
+            run = uniq(f(name='run', self_head='nuts::NUTSChain', container='inherent'))
+            if run is not None:
+                r = uniq([c for c in self.local_callees(run) if type_head(c.get('self_ty') or '') == 'nuts::NUTSChain' and c.get('name') != 'step'])
+        elif role == 'nuts.fre':
+            ic = self.helper('nuts.init_chain')
+            if ic is not None:
+                r = uniq([c for c in self.local_callees(ic) if c.get('container') is None])
+        elif role == 'nuts.chain_run_progress':
+            rp = uniq(f(name='run_progress', self_head='nuts::NUTS', container='inherent'))
+            if rp is not None:
+                r = uniq([c for c in self.local_callees(rp) if type_head(c.get('self_ty') or '') == 'nuts::NUTSChain'])
+        elif role == 'core._init':
+            ws = uniq(f(path='core::init_with_seed'))
+            if ws is not None:
+                r = uniq(self.local_callees(ws))
+        elif role == 'hmc.leapfrog':
+            st = uniq(f(name='step', self_head='hmc::HMC', container='inherent'))
+            if st is not None:
+                r = uniq([c for c in self.local_callees(st) if type_head(c.get('self_ty') or '') == 'hmc::HMC'])
+        self._helpers[role] = r
+        return r
+
+    def helper_key(self, role, default):
+        b = self.helper(role)
+        return strip_generics(b['path']) if b is not None else default
 
     # ---- obligations
     def add(self, oid, anchor, slot, verdict, **kw):
